@@ -273,8 +273,10 @@ func C05(run *core.Run) {
 			if to > len(all) {
 				to = len(all)
 			}
-			if _, err := f.InsertChain(wireAll(all[from:to])); err != nil {
-				core.Fatal("%s cannot adopt the producer's chain: %v", name, err)
+			if idx, err := f.InsertChain(wireAll(all[from:to])); err != nil {
+				run.Report("C05:node-refuses-momentum-of-the-elected-pillar", fmt.Sprintf("%s refuses the producer's chain at momentum %d: %v - its schedule differs from the one the producer (and every fresh node) derives", name, from+idx+2, err),
+					map[string]interface{}{"kind": "election-node", "node": name})
+				break
 			}
 			if restart && from == 0 {
 				dir := f.Dir
